@@ -54,7 +54,7 @@ def is_P_unimodal(samples, data):
     return np.ptp(P_samples) < delta
 
 
-def is_P_Kmodal(samples, data, n_clusters=2):
+def is_P_Kmodal(samples, data, n_clusters=2, rng=None):
     """
     Experimental!
 
@@ -63,6 +63,10 @@ def is_P_Kmodal(samples, data, n_clusters=2):
     samples : `~thejoker.JokerSamples`
     data : `~thejoker.RVData`
     n_clusters : int (optional)
+    rng : `numpy.random.Generator` (optional)
+        Used to seed the clustering. By default, a fixed seed is used, so that
+        the result is reproducible and numpy's global random state is never
+        read or changed.
 
     Returns
     -------
@@ -72,7 +76,8 @@ def is_P_Kmodal(samples, data, n_clusters=2):
 
     """
     from sklearn.cluster import KMeans
-    clf = KMeans(n_clusters=n_clusters)
+    seed = 0 if rng is None else int(rng.integers(2**31 - 1))
+    clf = KMeans(n_clusters=n_clusters, random_state=seed)
 
     lnP = np.log(samples['P'].value).reshape(-1, 1)
     y = clf.fit_predict(lnP)
